@@ -437,3 +437,580 @@ def gen_poison(tier):
             names.append(nm)
             out.append(txt)
     return "\n".join(out), names
+
+
+# ------------------------------------------------------------------------------------------
+# C07: duplicate detection is exact
+# ------------------------------------------------------------------------------------------
+def free_picks(kinds, prefix="l", tagbase=0):
+    """symbolic picks WITHOUT distinctness; returns (stmts, names, dup expression)"""
+    st, names = [], []
+    per = {"M": [], "R": []}
+    dups = []
+    for i, k in enumerate(kinds):
+        v = "%si%d" % (prefix, i)
+        st.append("let %s = any_below(T_IDX | %d, 3);" % (v, tagbase + i))
+        for o in per[k]:
+            dups.append("%s == %s" % (v, o))
+        per[k].append(v)
+        nm = "%s%d" % (prefix, i)
+        st.append("let %s = pick_%s(&u, %s);" % (nm, k.lower(), v))
+        names.append(nm)
+    return st, names, ("(" + " || ".join(dups) + ")") if dups else "false"
+
+
+def ctor(coll, data):
+    if coll == "boxed":
+        return "BoxedLockCollection::try_new(%s)" % data
+    if coll == "retry":
+        return "RetryingLockCollection::try_new(%s)" % data
+    return "RefLockCollection::try_new(&%s)" % data
+
+
+def dup_entry(coll, kinds, container="tuple"):
+    st, names, dup = free_picks(kinds)
+    L = ["w().reset(false);", "let u = universe();"] + st
+    L.append("let dup = %s;" % dup)
+    if container == "tuple":
+        data = "(" + ", ".join(names) + ("," if len(names) == 1 else "") + ")"
+    elif container == "array":
+        data = "[" + ", ".join(names) + "]"
+    else:
+        data = "vec![" + ", ".join(names) + "]"
+    L.append("let data = %s;" % data)
+    mask = " | ".join("bit(id%s(%s))" % (k.lower(), n) for n, k in zip(names, kinds))
+    L.append("let ops0 = w().ops.get();")
+    L.append("let r = %s;" % ctor(coll, "data"))
+    L.append("vcheck!(w().ops.get() == ops0, M_BLOCKING_IN_TRY);")
+    L.append("vcheck!(r.is_none() == dup, M_DUP_VERDICT);")
+    L.append("if let Some(c) = r {")
+    L.append("\tvreach!(1);")
+    L.append("\tlet g = c.lock(key());")
+    L.append("\tvcheck!(w().held_x.get() == (%s), M_NOT_ALL_HELD);" % mask)
+    L.append("\tdrop(g);")
+    L.append("\tvcheck!(!w().held_any(), M_HELD_AFTER_ERR);")
+    L.append("} else { vreach!(2); }")
+    L.append("vreach!(3);")
+    nm = "dup_%s_%s_%s" % (coll, container[0], kinds.lower())
+    return nm, fn_wrap(nm, L)
+
+
+def dup_nested_entry(outer, inner, kinds_inner, kind_extra):
+    """outer((&inner(l0..), x)) : x duplicates iff it equals a same-kind member of inner"""
+    st, names, dup_in = free_picks(kinds_inner)
+    L = ["w().reset(false);", "let u = universe();"] + st
+    L.append("let xi = any_below(T_IDX | 9, 3);")
+    L.append("let x = pick_%s(&u, xi);" % kind_extra.lower())
+    same = [("xi == li%d" % i) for i, k in enumerate(kinds_inner) if k == kind_extra]
+    L.append("let dup_inner = %s;" % dup_in)
+    L.append("let dup_outer = %s;" % ("(" + " || ".join(same) + ")" if same else "false"))
+    data = "(" + ", ".join(names) + ("," if len(names) == 1 else "") + ")"
+    L.append("let idata = %s;" % data)
+    L.append("let ri = %s;" % ctor(inner, "idata"))
+    L.append("vcheck!(ri.is_none() == dup_inner, M_DUP_VERDICT);")
+    L.append("if let Some(ic) = ri {")
+    L.append("\tlet odata = (&ic, x);")
+    L.append("\tlet ro = %s;" % ctor(outer, "odata"))
+    L.append("\tvcheck!(ro.is_none() == dup_outer, M_DUP_VERDICT);")
+    mask = " | ".join(["bit(id%s(%s))" % (k.lower(), n) for n, k in zip(names, kinds_inner)] + ["bit(id%s(x))" % kind_extra.lower()])
+    L.append("\tif let Some(c) = ro {")
+    L.append("\t\tvreach!(1);")
+    L.append("\t\tlet g = c.lock(key());")
+    L.append("\t\tvcheck!(w().held_x.get() == (%s), M_NOT_ALL_HELD);" % mask)
+    L.append("\t\tdrop(g);")
+    L.append("\t} else { vreach!(2); }")
+    L.append("\t// the same nested collection listed twice is a duplicate too")
+    L.append("\tlet twice = (&ic, &ic);")
+    L.append("\tlet rt = %s;" % ctor(outer, "twice"))
+    L.append("\tvcheck!(rt.is_none(), M_DUP_VERDICT);")
+    L.append("}")
+    L.append("vcheck!(!w().held_any(), M_HELD_AFTER_ERR);")
+    L.append("vreach!(3);")
+    nm = "dupn_%s_%s_%s_%s" % (outer, inner, kinds_inner.lower(), kind_extra.lower())
+    return nm, fn_wrap(nm, L)
+
+
+def dup_wrapped_entry(outer):
+    """owned collections and poisonable wrappers referenced twice / next to a distinct one"""
+    L = ["w().reset(false);", "let u = universe();"]
+    L.append("let ow = OwnedLockCollection::new((new_m(6), new_r(7)));")
+    L.append("let ow2 = OwnedLockCollection::new((new_m(8),));")
+    L.append("let po: PM = Poisonable::new(new_m(9));")
+    L.append("let xi = any_below(T_IDX | 0, 3);")
+    L.append("let x = pick_m(&u, xi);")
+    L.append("let d1 = (&ow, &ow);")
+    L.append("vcheck!(%s.is_none(), M_DUP_VERDICT);" % ctor(outer, "d1"))
+    L.append("let d2 = (&po, x, &po);")
+    L.append("vcheck!(%s.is_none(), M_DUP_VERDICT);" % ctor(outer, "d2"))
+    L.append("let d3 = (&ow, x, &ow2, &po);")
+    L.append("let r3 = %s;" % ctor(outer, "d3"))
+    L.append("vcheck!(r3.is_some(), M_DUP_VERDICT);")
+    L.append("if let Some(c) = r3 {")
+    L.append("\tvreach!(1);")
+    L.append("\tlet g = c.lock(key());")
+    L.append("\tvcheck!(w().held_x.get() == (bit(6) | bit(7) | bit(8) | bit(9) | bit(idm(x))), M_NOT_ALL_HELD);")
+    L.append("\tdrop(g);")
+    L.append("}")
+    L.append("vcheck!(!w().held_any(), M_HELD_AFTER_ERR);")
+    L.append("vreach!(3);")
+    nm = "dupw_%s" % outer
+    return nm, fn_wrap(nm, L)
+
+
+def gen_dup(tier):
+    out = [HEADER]
+    names = []
+    kinds_list = ["MM", "MR", "RR", "MMM", "MRM", "RMR", "MMR"] if tier == "quick" else \
+        ["M", "MM", "MR", "RR", "MMM", "MRM", "RMR", "MMR", "RRR", "MRMR", "MMRR", "MMMR", "MMMM", "MRMRM", "MMRRM", "MMRRMR"]
+    for coll in ("boxed", "ref", "retry"):
+        for kinds in kinds_list:
+            nm, txt = dup_entry(coll, kinds)
+            names.append(nm)
+            out.append(txt)
+        if tier != "quick":
+            for container in ("array", "vec"):
+                for kinds in ("MM", "MMM", "MMMM"):
+                    if coll == "ref" and container == "vec":
+                        pass
+                    nm, txt = dup_entry(coll, kinds, container)
+                    names.append(nm)
+                    out.append(txt)
+        nm, txt = dup_wrapped_entry(coll)
+        names.append(nm)
+        out.append(txt)
+    for outer in ("boxed", "ref", "retry"):
+        for inner in ("boxed", "retry", "ref"):
+            for (ki, kx) in ((("MM", "M"), ("MR", "R")) if tier == "quick" else (("MM", "M"), ("MR", "R"), ("MR", "M"), ("MRM", "M"), ("RR", "M"))):
+                nm, txt = dup_nested_entry(outer, inner, ki, kx)
+                names.append(nm)
+                out.append(txt)
+    return "\n".join(out), names
+
+
+# ------------------------------------------------------------------------------------------
+# C08: one arrangement-independent acquisition order
+# ------------------------------------------------------------------------------------------
+ORDER_HELPERS = """
+/// blocking acquisitions recorded in the world log from index `from`, as lock ids
+fn acq_seq(from: usize, out: &mut [u8; 8]) -> usize {
+	let mut n = 0;
+	let mut i = from;
+	while i < w().log_len.get() {
+		let e = w().log[i].get();
+		let kind = (e >> 8) as u32;
+		if (kind == K_LOCK_X || kind == K_LOCK_S) && n < 8 {
+			out[n] = (e & 0xff) as u8;
+			n += 1;
+		}
+		i += 1;
+	}
+	n
+}
+fn pos(seq: &[u8; 8], n: usize, id: u8) -> usize {
+	let mut i = 0;
+	while i < n {
+		if seq[i] == id {
+			return i;
+		}
+		i += 1;
+	}
+	99
+}
+/// the two sequences order their common locks identically
+fn consistent(a: &[u8; 8], na: usize, b: &[u8; 8], nb: usize) -> bool {
+	let mut i = 0;
+	while i < na {
+		let mut j = i + 1;
+		while j < na {
+			let pi = pos(b, nb, a[i]);
+			let pj = pos(b, nb, a[j]);
+			if pi != 99 && pj != 99 && pi >= pj {
+				return false;
+			}
+			j += 1;
+		}
+		i += 1;
+	}
+	true
+}
+/// universe locks (ids 0..5) appear in increasing id (= address) order
+fn increasing_universe(a: &[u8; 8], n: usize) -> bool {
+	let mut last: i32 = -1;
+	let mut i = 0;
+	while i < n {
+		if a[i] < 6 {
+			if (a[i] as i32) <= last {
+				return false;
+			}
+			last = a[i] as i32;
+		}
+		i += 1;
+	}
+	true
+}
+fn same_seq(a: &[u8; 8], na: usize, b: &[u8; 8], nb: usize) -> bool {
+	if na != nb {
+		return false;
+	}
+	let mut i = 0;
+	while i < na {
+		if a[i] != b[i] {
+			return false;
+		}
+		i += 1;
+	}
+	true
+}
+"""
+
+
+def order_build(coll, kinds, prefix, tagbase, nested=None):
+    """returns (setup stmts, expr for the collection variable name)"""
+    st = []
+    names = []
+    per = {"M": [], "R": []}
+    for i, k in enumerate(kinds):
+        v = "%si%d" % (prefix, i)
+        st.append("let %s = any_below(T_IDX | %d, 3);" % (v, tagbase + i))
+        for o in per[k]:
+            st.append("eng::assume(%s != %s);" % (v, o))
+        per[k].append(v)
+        nm = "%s%d" % (prefix, i)
+        st.append("let %s = pick_%s(&u, %s);" % (nm, k.lower(), v))
+        names.append(nm)
+    if nested is None:
+        data = "(" + ", ".join(names) + ("," if len(names) == 1 else "") + ")"
+        st.append("let %sdata = %s;" % (prefix, data))
+        st.append("let %sc = %s.unwrap();" % (prefix, ctor(coll, prefix + "data")))
+    else:
+        # first two members go through a nested collection, the rest are listed directly
+        inner = "(" + ", ".join(names[:2]) + ")"
+        st.append("let %sidata = %s;" % (prefix, inner))
+        st.append("let %sic = %s.unwrap();" % (prefix, ctor(nested, prefix + "idata")))
+        rest = ", ".join(["&%sic" % prefix] + names[2:])
+        st.append("let %sdata = (%s,);" % (prefix, rest) if len(names) == 2 else "let %sdata = (%s);" % (prefix, rest))
+        st.append("let %sc = %s.unwrap();" % (prefix, ctor(coll, prefix + "data")))
+    return st
+
+
+def order_entry(ca, ka, cb, kb, mode="lock", nested_a=None, nested_b=None, owned=False):
+    L = ["w().reset(false);", "let u = universe();"]
+    L += order_build(ca, ka, "a", 0, nested_a)
+    if owned:
+        # an owned group listed inside collection B is one indivisible unit at its own address
+        L.append("let og = OwnedLockCollection::new((new_m(6), new_m(7)));")
+        L += order_build(cb, kb, "b", 8, None)[:-2]
+        names_b = ["b%d" % i for i in range(len(kb))]
+        L.append("let bdata = (%s);" % ", ".join([names_b[0], "&og"] + names_b[1:]))
+        L.append("let bc = %s.unwrap();" % ctor(cb, "bdata"))
+    else:
+        L += order_build(cb, kb, "b", 8, nested_b)
+    L.append("w().log_on.set(true);")
+    L.append("let mut sa = [0u8; 8]; let mut sb = [0u8; 8]; let mut sa2 = [0u8; 8];")
+    L.append("let g = ac.%s(key()); drop(g);" % mode)
+    L.append("let na = acq_seq(0, &mut sa);")
+    L.append("let mark1 = w().log_len.get();")
+    L.append("let g = bc.%s(key()); drop(g);" % mode)
+    L.append("let nb = acq_seq(mark1, &mut sb);")
+    L.append("let mark2 = w().log_len.get();")
+    L.append("let g = ac.%s(key()); drop(g);" % mode)
+    L.append("let na2 = acq_seq(mark2, &mut sa2);")
+    L.append("vcheck!(na == %d && nb == %d, M_NOT_ALL_HELD);" % (len(ka), len(kb) + (2 if owned else 0)))
+    L.append("vcheck!(consistent(&sa, na, &sb, nb), M_ORDER);")
+    L.append("vcheck!(increasing_universe(&sa, na) && increasing_universe(&sb, nb), M_ORDER);")
+    L.append("vcheck!(same_seq(&sa, na, &sa2, na2), M_ORDER);")
+    if owned:
+        L.append("let p6 = pos(&sb, nb, 6); let p7 = pos(&sb, nb, 7);")
+        L.append("vcheck!(p6 != 99 && p7 == p6 + 1, M_ORDER);")
+    L.append("vcheck!(!w().held_any(), M_HELD_AFTER_ERR);")
+    L.append("vreach!(3);")
+    nm = "ord_%s%s_%s__%s%s_%s__%s%s" % (ca, ("_n" + nested_a) if nested_a else "", ka.lower(), cb, ("_n" + nested_b) if nested_b else "",
+                                      kb.lower(), mode, "_owned" if owned else "")
+    return nm, fn_wrap(nm, L)
+
+
+def gen_order(tier):
+    out = [HEADER, ORDER_HELPERS]
+    names = []
+    combos = [("boxed", "MRM", "ref", "MRM", "lock", None, None, False),
+              ("boxed", "MRM", "boxed", "RM", "lock", None, None, False),
+              ("ref", "RRR", "boxed", "RR", "read", None, None, False),
+              ("boxed", "MRM", "ref", "MRM", "lock", "boxed", None, False),
+              ("boxed", "MMR", "ref", "MRM", "lock", "retry", "ref", False),
+              ("ref", "MRM", "boxed", "MR", "lock", None, None, True)]
+    if tier != "quick":
+        combos += [("boxed", "MRMR", "ref", "MRMR", "lock", None, None, False),
+                   ("ref", "MRM", "ref", "MRM", "lock", "ref", "boxed", False),
+                   ("boxed", "RRR", "ref", "RRR", "read", "retry", None, False),
+                   ("boxed", "RRR", "boxed", "RRR", "lock", None, None, False),
+                   ("boxed", "MRM", "ref", "RM", "lock", None, None, True)]
+    for c in combos:
+        nm, txt = order_entry(*c)
+        names.append(nm)
+        out.append(txt)
+    return "\n".join(out), names
+
+
+# ------------------------------------------------------------------------------------------
+# C06: at most one live key per thread, over histories
+# ------------------------------------------------------------------------------------------
+KEY_HARNESS = """
+pub struct H {
+	cur: Option<ThreadKey>,
+	alive: bool,
+}
+
+fn other_thread_body() {
+	// keys of different threads are independent: a fresh thread always gets its key, exactly once
+	let k = ThreadKey::get();
+	vcheck!(k.is_some(), M_KEY_MODEL);
+	let k2 = ThreadKey::get();
+	vcheck!(k2.is_none(), M_KEY_MODEL);
+	drop(k);
+	let k3 = ThreadKey::get();
+	vcheck!(k3.is_some(), M_KEY_MODEL);
+	core::mem::forget(k3);
+	vcheck!(ThreadKey::get().is_none(), M_KEY_MODEL);
+}
+
+fn key_step(op: u8, h: &mut H, m: &M, busy: &M, r: &R, po: &PM, coll: &BoxedLockCollection<(&M, &R)>) {
+	eng::event(E_MARK, 9200 + op as u32, 0);
+	match op {
+		0 => {
+			let g = ThreadKey::get();
+			vcheck!(g.is_some() == !h.alive, M_KEY_MODEL);
+			if let Some(k) = g {
+				h.cur = Some(k);
+				h.alive = true;
+			}
+		}
+		1 => {
+			if let Some(k) = h.cur.take() {
+				drop(k);
+				h.alive = false;
+			}
+		}
+		2 => {
+			if let Some(k) = h.cur.take() {
+				core::mem::forget(k);
+			}
+		}
+		3 => {
+			if let Some(k) = h.cur.take() {
+				let g = m.lock(k);
+				vcheck!(ThreadKey::get().is_none(), M_KEY_MODEL);
+				drop(g);
+				h.alive = false;
+			}
+		}
+		4 => {
+			if let Some(k) = h.cur.take() {
+				let g = r.read(k);
+				h.cur = Some(crate::rwlock::RwLock::unlock_read(g));
+			}
+		}
+		5 => {
+			if let Some(k) = h.cur.take() {
+				if !raw_m(m).held_by_t0() {
+					let g = m.lock(k);
+					core::mem::forget(g);
+				} else {
+					h.cur = Some(k);
+				}
+			}
+		}
+		6 => {
+			if let Some(k) = h.cur.take() {
+				match busy.try_lock(k) {
+					Ok(g) => {
+						vcheck!(false, M_TRY_VERDICT);
+						drop(g);
+						h.alive = false;
+					}
+					Err(kb) => {
+						h.cur = Some(kb);
+					}
+				}
+			}
+		}
+		7 => {
+			if let Some(k) = h.cur.take() {
+				match r.try_write(k) {
+					Ok(g) => {
+						vcheck!(ThreadKey::get().is_none(), M_KEY_MODEL);
+						drop(g);
+						h.alive = false;
+					}
+					Err(kb) => {
+						h.cur = Some(kb);
+					}
+				}
+			}
+		}
+		8 => {
+			if let Some(mut k) = h.cur.take() {
+				r.scoped_write(&mut k, |_d| {
+					vcheck!(ThreadKey::get().is_none(), M_KEY_MODEL);
+				});
+				h.cur = Some(k);
+			}
+		}
+		9 => {
+			if let Some(k) = h.cur.take() {
+				r.scoped_read(k, |_d| {
+					vcheck!(ThreadKey::get().is_none(), M_KEY_MODEL);
+				});
+				h.alive = false;
+			}
+		}
+		10 => {
+			if let Some(mut k) = h.cur.take() {
+				let res = catch_unwind(AssertUnwindSafe(|| {
+					r.scoped_write(&mut k, |_d| {
+						eng::inject_panic();
+					})
+				}));
+				vcheck!(res.is_err(), M_NO_PANIC);
+				core::mem::forget(res);
+				h.cur = Some(k);
+			}
+		}
+		11 => {
+			if let Some(k) = h.cur.take() {
+				let res = catch_unwind(AssertUnwindSafe(move || {
+					r.scoped_write(k, |_d| {
+						eng::inject_panic();
+					})
+				}));
+				vcheck!(res.is_err(), M_NO_PANIC);
+				core::mem::forget(res);
+				h.alive = false;
+			}
+		}
+		12 => {
+			if let Some(k) = h.cur.take() {
+				let res = catch_unwind(AssertUnwindSafe(move || {
+					let g = r.write(k);
+					eng::inject_panic();
+					drop(g);
+				}));
+				vcheck!(res.is_err(), M_NO_PANIC);
+				core::mem::forget(res);
+				h.alive = false;
+			}
+		}
+		13 => {
+			if let Some(k) = h.cur.take() {
+				// poisoned or not: the result carries the guard, dropping it gives the key up
+				match po.lock(k) {
+					Ok(g) => drop(g),
+					Err(e) => {
+						let g = e.into_inner();
+						vcheck!(ThreadKey::get().is_none(), M_KEY_MODEL);
+						drop(g);
+					}
+				}
+				h.alive = false;
+			}
+		}
+		14 => {
+			if let Some(k) = h.cur.take() {
+				let res = catch_unwind(AssertUnwindSafe(move || {
+					let g = po.lock(k);
+					eng::inject_panic();
+					drop(g);
+				}));
+				core::mem::forget(res);
+				h.alive = false;
+			}
+		}
+		15 => {
+			if let Some(k) = h.cur.take() {
+				match po.try_lock(k) {
+					Ok(g) => {
+						h.cur = Some(Poisonable::<M>::unlock(g));
+					}
+					Err(crate::poisonable::TryLockPoisonableError::Poisoned(e)) => {
+						h.cur = Some(Poisonable::<M>::unlock(e.into_inner()));
+					}
+					Err(crate::poisonable::TryLockPoisonableError::WouldBlock(kb)) => {
+						h.cur = Some(kb);
+					}
+				}
+			}
+		}
+		16 => {
+			if let Some(k) = h.cur.take() {
+				if !raw_m(m).held_by_t0() {
+					let g = coll.lock(k);
+					h.cur = Some(BoxedLockCollection::<(&M, &R)>::unlock(g));
+				} else {
+					h.cur = Some(k);
+				}
+			}
+		}
+		17 => {
+			if let Some(k) = h.cur.take() {
+				match coll.try_lock(k) {
+					Ok(g) => {
+						core::mem::forget(g);
+					}
+					Err(kb) => {
+						h.cur = Some(kb);
+					}
+				}
+			}
+		}
+		18 => {
+			eng::on_thread(1, other_thread_body);
+		}
+		_ => {
+			if let Some(k) = h.cur.take() {
+				if !raw_m(m).held_by_t0() {
+					let v = coll.scoped_lock(k, |_d| 3u8);
+					vcheck!(v == 3, M_CLOSURE_COUNT);
+					h.alive = false;
+				} else {
+					h.cur = Some(k);
+				}
+			}
+		}
+	}
+	// probe: get() succeeds exactly when the thread's key is not alive
+	let p = ThreadKey::get();
+	vcheck!(p.is_some() == !h.alive, M_KEY_MODEL);
+	if let Some(k) = p {
+		if any_bool(T_MISC | 7) {
+			h.cur = Some(k);
+			h.alive = true;
+		} else {
+			drop(k);
+		}
+	}
+}
+"""
+
+
+def gen_key(tier):
+    n_ops = 20
+    L = 3 if tier == "quick" else 4
+    out = [HEADER, KEY_HARNESS]
+    names = []
+    # one entry per first opcode so that the work is spread over the cores
+    for first in range(n_ops):
+        B = ["w().reset(false);", "let u = universe();", "let po: PM = Poisonable::new(new_m(6));",
+             "raw_m(&u.m1).st.set(ST_ENV); raw_m(&u.m1).sync();",
+             "let coll = BoxedLockCollection::try_new((&u.m0, &u.r0)).unwrap();",
+             "let mut h = H { cur: None, alive: false };",
+             "if any_bool(T_MISC | 6) { h.cur = ThreadKey::get(); h.alive = true; vcheck!(h.cur.is_some(), M_KEY_MODEL); }",
+             "key_step(%d, &mut h, &u.m0, &u.m1, &u.r0, &po, &coll);" % first]
+        for i in range(1, L):
+            B.append("let op%d = any_below(T_OPCODE | %d, %d);" % (i, i, n_ops))
+            B.append("key_step(op%d, &mut h, &u.m0, &u.m1, &u.r0, &po, &coll);" % i)
+        B.append("vcheck!(w().bad_release.get() == 0, M_BAD_RELEASE);")
+        B.append("vreach!(3);")
+        B.append("core::mem::forget(h);")
+        nm = "key_hist_%d" % first
+        names.append(nm)
+        out.append(fn_wrap(nm, B))
+    return "\n".join(out), names
